@@ -107,6 +107,23 @@ class HarnessPool:
         return results
 
 
+    def map_sequences(self, sequences, timeout=120):
+        """each sequence of calls in order inside one fresh harness process (one thread); sequences in parallel"""
+        results = [None] * len(sequences)
+
+        def worker(i):
+            h = Harness(self.binary)
+            try:
+                results[i] = [h.call(c[0], *c[1:], timeout=timeout) for c in sequences[i]]
+            finally:
+                h.close()
+
+        if sequences:
+            with ThreadPoolExecutor(max_workers=max(1, min(self.n, len(sequences)))) as ex:
+                list(ex.map(worker, range(len(sequences))))
+        return results
+
+
 class CliOut:
     __slots__ = ("cls", "rc", "stdout", "stderr")
 
